@@ -1147,4 +1147,81 @@ theorem run_inv10 (P : Prog) (c0 : Cfg) (evs : List Ev) (h2 : Inv2 c0) (h : Inv1
   | nil => exact h
   | cons e es ih => exact ih _ (step_inv2 P c0 e h2) (step_inv10 P c0 e h h2)
 
+/-! ### step_until_terminated() returns -/
+
+/-- `stepper_returns` with the hypothesis on the current pause future only where it is used: when the coroutine is
+blocked on a pause future -/
+theorem stepper_returns_gen (P : Prog) (c : Cfg) (ht : terminal c.st.label = true) (hcr : ∀ e, c.pc ≠ .crashed e)
+    (hpz : ∀ pf pf', c.pc = .awaitPaused pf → c.paused = some pf' → c.pfs[pf']? = some true)
+    (hap : ∀ pf, c.pc = .awaitPaused pf → c.pfs[pf]? = some true)
+    (haw : ∀ wf, c.pc = .awaitWaiting wf → ∃ w, c.wfs[wf]? = some w ∧ w ≠ .pending) :
+    ∃ n, (ticks P n c).pc = .done := by
+  cases hpc : c.pc with
+  | done => exact ⟨0, hpc⟩
+  | crashed e => exact absurd hpc (hcr e)
+  | notStarted =>
+    refine ⟨1, ?_⟩
+    simp only [ticks, tickStepper, hpc]
+    rw [fuel0_pos]; exact loopHead_terminal P _ c ht hcr
+  | awaitPaused pf =>
+    refine ⟨1, ?_⟩
+    have h1 := hap pf hpc
+    simp only [ticks, tickStepper, hpc, h1, if_true]
+    cases hp : c.paused with
+    | none => simp only []; rw [fuel0_pos]; exact stepBody_terminal P _ c ht hcr
+    | some pf' =>
+      have h2 := hpz pf pf' hpc hp
+      simp only [h2]
+      rw [fuel0_pos]; exact stepBody_terminal P _ c ht hcr
+  | awaitWaiting wf =>
+    refine ⟨1, ?_⟩
+    obtain ⟨w, hw, hne⟩ := haw wf hpc
+    simp only [ticks, tickStepper, hpc, hw]
+    have hwk := fun fn' => wake_terminal c fn' wf w ht
+    cases w with
+    | pending => exact absurd rfl hne
+    | result v => rw [fuel0_pos]; exact loopHead_terminal P _ _ (by rw [(hwk _).2]; exact ht) (by intro e; rw [(hwk _).1, hpc]; intro h; cases h)
+    | interrupted k => rw [fuel0_pos]; exact loopHead_terminal P _ _ (by rw [(hwk _).2]; exact ht) (by intro e; rw [(hwk _).1, hpc]; intro h; cases h)
+    | failed e' => rw [fuel0_pos]; exact loopHead_terminal P _ _ (by rw [(hwk _).2]; exact ht) (by intro e; rw [(hwk _).1, hpc]; intro h; cases h)
+  | inUser b =>
+    -- by induction on the number of awaits left in the user coroutine
+    have key : ∀ (k : Nat) (d : Cfg) (b : Body), b.awaits = k → terminal d.st.label = true → d.pc = .inUser b →
+        ∃ n, (ticks P n d).pc = .done := by
+      intro k
+      induction k with
+      | zero =>
+        intro d b hb hdt hdp
+        refine ⟨1, ?_⟩
+        simp only [ticks, tickStepper, hdp, hb, if_true]
+        have hf := finishUser_terminal d b.out hdt
+        rw [fuel0_pos]
+        exact loopHead_terminal P _ _ (by rw [hf.2]; exact hdt) (by intro e; rw [hf.1, hdp]; intro h; cases h)
+      | succ k ih =>
+        intro d b hb hdt hdp
+        have hne : b.awaits ≠ 0 := by omega
+        obtain ⟨n, hn⟩ := ih { d with pc := .inUser { b with awaits := b.awaits - 1 } } { b with awaits := b.awaits - 1 }
+          (by simp; omega) hdt rfl
+        refine ⟨n + 1, ?_⟩
+        simp only [ticks, tickStepper, hdp, hne, if_false]
+        exact hn
+    exact key b.awaits c b rfl ht hpc
+
+/-- **step_until_terminated() returns**: in every reachable terminated configuration, finitely many wake-ups of the
+stepping task end it normally -/
+theorem stepper_returns_reachable (P : Prog) (nf : Nat) (evs : List Ev)
+    (ht : terminal (run P (init nf) evs).st.label = true) : ∃ n, (ticks P n (run P (init nf) evs)).pc = .done := by
+  have h := run_inv10 P (init nf) evs (inv2_init nf) (inv10_init nf)
+  refine stepper_returns_gen P _ ht h.s.nocrash ?_ ?_ ?_
+  · intro pf pf' hpc hpa
+    exact h.s.tp pf hpc ht pf' hpa
+  · intro pf hpc
+    rcases (h.s.ap pf hpc).2 with hp | hp
+    · exact h.s.tp pf hpc ht pf hp
+    · exact hp
+  · intro wf hpc
+    obtain ⟨hlt, hw⟩ := h.s.aw wf hpc
+    rcases hw with ⟨fn, wk, aw, hst⟩ | hn
+    · exact absurd hst ((not_live_of_terminal ht).2.2 fn wf wk aw)
+    · exact ⟨_, List.getElem?_eq_getElem hlt, by intro hp; rw [List.getElem?_eq_getElem hlt, hp] at hn; exact hn rfl⟩
+
 end PMF
